@@ -16,7 +16,7 @@ pub fn def() -> PropertyDef {
     PropertyDef {
         id: "C14",
         level: "exploration",
-        props: |_| vec![Box::new(Postfilter) as Box<dyn DynProp>],
+        props: |_| vec![Box::new(Postfilter) as Box<dyn DynProp>, Box::new(PostfilterAfterHistory) as Box<dyn DynProp>],
         extra: no_extra,
         replay_custom: no_custom,
         assumptions: &[
@@ -129,6 +129,89 @@ impl Prop for Postfilter {
         rep.nontrivial = true;
         rep.class_if(c.alpha == 0.0, "alpha=0");
         rep.class_if(len == 3, "len=3");
+        Ok(rep)
+    }
+}
+
+#[derive(Debug, Clone, Serialize)]
+pub struct HistCase {
+    pub base: Case,
+    pub mode: String,
+    pub history: Vec<Vec<f64>>,
+}
+
+/// The postfiltered frame must not depend on the frames rendered before it.
+pub struct PostfilterAfterHistory;
+
+impl Prop for PostfilterAfterHistory {
+    type Case = HistCase;
+    fn name(&self) -> String {
+        "postfilter-after-history".into()
+    }
+    fn rule(&self) -> String {
+        "as postfilter (rate 8000, orders 3..16, beta in (0,0.5]), but with frame period 1 and a generated history before the measured stationary cepstrum: none | up to 40 frames of a cepstrum that differs only in a subset of coefficients (order 0 only, order 1 only, orders >= 2 only, last only, all) | slow drift; the responses to the second pulse with and without beta must obey the (1+beta) shape law (0.005) and have equal energy (1 %). Non-trivial: a non-empty history".into()
+    }
+    fn tape_len(&self, _: Tier) -> usize {
+        160
+    }
+    fn cases(&self, tier: Tier) -> u32 {
+        tier.pick(240, 6_000)
+    }
+    fn decode(&self, t: &mut Tape, _: Tier) -> HistCase {
+        let rate = 8000;
+        let alpha = gen_alpha(t);
+        let len = t.urange(3, 16);
+        let beta = t.uniform(0.05, 0.5);
+        let target = t.uniform(0.2, 1.2) / (1.0 + beta);
+        let mut cepstrum = gen_cepstrum(t, len, alpha, target);
+        cepstrum[0] = t.uniform(-3.0, 3.0);
+        let (history, mode) = crate::dsp::gen_spectrum_history(t, &cepstrum, 120, false);
+        HistCase { base: Case { rate, alpha, beta, cepstrum }, mode, history }
+    }
+    fn check(&self, c: &HistCase) -> Result<Report, Failure> {
+        let b = &c.base;
+        let k2 = b.rate / 20;
+        let window = k2 - 4;
+        let mut scaled = b.cepstrum.clone();
+        for ci in scaled.iter_mut().skip(2) {
+            *ci *= 1.0 + b.beta;
+        }
+        // both responses must have decayed inside the window and before the second pulse
+        let quiet = (k2 - c.history.len()).min(window);
+        if !reference_decays(|w| mcep_logmag(&b.cepstrum, b.alpha, w), quiet) || !reference_decays(|w| mcep_logmag(&scaled, b.alpha, w), quiet) {
+            return Ok(Report::rejected("reference-not-decayed"));
+        }
+        let (plain, _) = crate::dsp::measure_after_history(&c.history, &b.cepstrum, 0, false, b.rate, b.alpha, 0.0, window);
+        let (post, _) = crate::dsp::measure_after_history(&c.history, &b.cepstrum, 0, false, b.rate, b.alpha, b.beta, window);
+        let mut rep = Report::new();
+        let k = 33;
+        let mut lo = f64::INFINITY;
+        let mut hi = f64::NEG_INFINITY;
+        for i in 0..k {
+            let w = PI * i as f64 / (k - 1) as f64;
+            let wt = warp(w, b.alpha);
+            let expect: f64 = b.beta * b.cepstrum.iter().enumerate().skip(2).map(|(m, cm)| cm * (m as f64 * wt).cos()).sum::<f64>();
+            let d = dft_logmag(&post, w) - dft_logmag(&plain, w) - expect;
+            if d.is_nan() {
+                fail!("postfilter-shape", "NaN in the spectral comparison after a history");
+            }
+            lo = lo.min(d);
+            hi = hi.max(d);
+        }
+        rep.metric("shape_relation_spread_neper", hi - lo);
+        ensure!(hi - lo <= 0.005, "postfilter-history-dependence", "after the history '{}' the (1+beta) shape relation varies by {:.4} neper over frequency (beta {}, alpha {}, order {})", c.mode, hi - lo, b.beta, b.alpha, b.cepstrum.len() - 1);
+        let e0: f64 = plain.iter().map(|x| x * x).sum();
+        let e1: f64 = post.iter().map(|x| x * x).sum();
+        let ratio = e1 / e0;
+        rep.metric("energy_ratio_dev", (ratio - 1.0).abs());
+        ensure!(
+            (ratio - 1.0).abs() <= 0.01,
+            "postfilter-history-dependence",
+            "after the history '{}' ({} frames) enabling the postfilter changes the impulse-response energy by factor {:.4} (beta {}, alpha {}, order {})",
+            c.mode, c.history.len(), ratio, b.beta, b.alpha, b.cepstrum.len() - 1
+        );
+        rep.nontrivial = !c.history.is_empty();
+        rep.class(format!("history:{}", c.mode));
         Ok(rep)
     }
 }
